@@ -370,12 +370,12 @@ fn gen_tcp(r: &mut Rng, extras: bool) -> Vec<Vec<Tok>> {
                     1 => { // pipelined: replies owed before a SUBSCRIBE, in one chunk
                         let mut w = vec![];
                         V::cmd(&[b"PING"]).wire(&mut w); V::cmd(&[b"SUBSCRIBE", *r.pick(&chs)]).wire(&mut w); V::cmd(&[b"ECHO", b"after"]).wire(&mut w);
-                        ops.push(raw_op(c, &[w]));
+                        ops.push(subraw_op(c, &w));
                     }
                     2 => { // pipelined publish by a (possible) subscriber: the pushed frame overtakes the held replies
                         let mut w = vec![];
                         V::cmd(&[b"ECHO", b"before"]).wire(&mut w); V::cmd(&[b"PUBLISH", *r.pick(&chs), &payload(r, &mut serial)]).wire(&mut w); V::cmd(&[b"PING"]).wire(&mut w);
-                        ops.push(raw_op(c, &[w]));
+                        ops.push(subraw_op(c, &w));
                     }
                     _ => { // inside MULTI the pub/sub commands run at once (class tx-immediate); one reply frame each
                         // (CMD reads one frame: the connection must not receive its own publish)
@@ -409,8 +409,8 @@ fn tcp_witnesses() -> Vec<Case> {
         Case { id: "s-w-unsub-nothing".into(), outs: vec![], ops: vec![conn_op(1), sc(1, &[b"UNSUBSCRIBE", b"a", b"b"]), sc(1, &[b"UNSUBSCRIBE"]), sc(1, &[b"PUNSUBSCRIBE"]),
             sc(1, &[b"PSUBSCRIBE", b"p*"]), sc(1, &[b"UNSUBSCRIBE"]), sc(1, &[b"UNSUBSCRIBE", b"zz"]), sc(1, &[b"PUNSUBSCRIBE"])] },
         // 86d9004: PING; SUBSCRIBE ch in one batch answers PONG first
-        Case { id: "sx-w-pipeline".into(), outs: vec![], ops: vec![conn_op(1), raw_op(1, &[{ let mut w = vec![]; V::cmd(&[b"PING"]).wire(&mut w); V::cmd(&[b"SUBSCRIBE", b"ch"]).wire(&mut w); w }]),
-            raw_op(1, &[{ let mut w = vec![]; V::cmd(&[b"PING"]).wire(&mut w); V::cmd(&[b" subscribe", b"c2"]).wire(&mut w); w }])] },
+        Case { id: "sx-w-pipeline".into(), outs: vec![], ops: vec![conn_op(1), subraw_op(1, &{ let mut w = vec![]; V::cmd(&[b"PING"]).wire(&mut w); V::cmd(&[b"SUBSCRIBE", b"ch"]).wire(&mut w); w }),
+            subraw_op(1, &{ let mut w = vec![]; V::cmd(&[b"PING"]).wire(&mut w); V::cmd(&[b" subscribe", b"c2"]).wire(&mut w); w })] },
         // disconnect cleanup, and the Closing connection that keeps its subscriptions (closing-leak)
         Case { id: "s-w-disconnect".into(), outs: vec![], ops: vec![conn_op(1), conn_op(2), sc(1, &[b"SUBSCRIBE", b"ch"]), close_op(1), sc(2, &[b"PING"]), sc(2, &[b"PING"]), sc(2, &[b"PUBLISH", b"ch", b"m"])] },
         Case { id: "sx-w-closing-leak".into(), outs: vec![], ops: vec![conn_op(1), conn_op(2), sc(1, &[b"SUBSCRIBE", b"ch"]), sc(1, &[b"QUIT"]), sc(2, &[b"PUBLISH", b"ch", b"m"]), drain_op(1),
